@@ -172,6 +172,22 @@ struct SIMDVector<float,simd_abi::avx512> {
         __m256 high = _mm256_castpd_ps(_mm512_extractf64x4_pd(_mm512_castps_pd(value),1));
         return _mm256_prod_ps(_mm256_mul_ps(low,high));
     }
+    FASTOR_INLINE float minimum() {
+        float vals[Size]; _mm512_storeu_ps(vals, value);
+        float quan = vals[0];
+        for (FASTOR_INDEX i=1; i<Size; ++i)
+            if (vals[i]<quan)
+                quan = vals[i];
+        return quan;
+    }
+    FASTOR_INLINE float maximum() {
+        float vals[Size]; _mm512_storeu_ps(vals, value);
+        float quan = vals[0];
+        for (FASTOR_INDEX i=1; i<Size; ++i)
+            if (vals[i]>quan)
+                quan = vals[i];
+        return quan;
+    }
     FASTOR_INLINE SIMDVector<float,simd_abi::avx512> reverse() {
         return _mm512_reverse_ps(value);
     }
